@@ -2,6 +2,7 @@ package pipedrv
 
 import (
 	"context"
+	"runtime"
 	"sync/atomic"
 	"time"
 )
@@ -54,7 +55,7 @@ func RunFree(s Sched, variant string, still time.Duration) Trace {
 	rest := func(quiet time.Duration, base int) bool {
 		last, at, t0 := nev(), time.Now(), time.Now()
 		for {
-			if time.Since(t0) > 4*quiet+time.Minute || nev() > 2000000 {
+			if time.Since(t0) > 2*quiet+30*time.Second || nev() > 2000000 {
 				restless = true
 				return false
 			}
@@ -84,7 +85,7 @@ func RunFree(s Sched, variant string, still time.Duration) Trace {
 	closed := make([]atomic.Bool, nin)
 	sentBefore, closeLogged := make([]int, nin), make([]bool, nin)
 	stop := make(chan struct{})
-	for i := 0; i < nin; i++ {
+	for i := 0; i < nin && variant != "closecancel"; i++ {
 		vals := c.inputVals(i)
 		if variant == "cancel" {
 			vals = vals[:(len(vals)+1)/2]
@@ -147,6 +148,30 @@ func RunFree(s Sched, variant string, still time.Duration) Trace {
 		// part of the input (or, for a generator, a few periods), then the cancel
 		if generator {
 			time.Sleep(12 * time.Duration(max(1, cfg.Freq)) * c.unit())
+		} else if variant == "closecancel" {
+			// what fits into the input buffers, the close by the sender and the cancel, back to back on one processor: the
+			// stage, woken by the first send, finds values, the close and the cancel all waiting when it gets to run
+			prev := runtime.GOMAXPROCS(1)
+			for i := 0; i < nin; i++ {
+				for _, v := range c.inputVals(i) {
+					if !c.rawTrySend(i, v) {
+						break
+					}
+					issued[i].Add(1)
+					c.emit(Ev{E: "sent", I: i, V: v, K: -1})
+				}
+				c.rawClose(i)
+				closed[i].Store(true)
+			}
+			ev := take()
+			done, _ := subs(ev)
+			tr.Wins = append(tr.Wins, Window{Cmd: Cmd{C: "burst", Sub: done}, Done: ev, Q: c.snapshot(), Busy: true})
+			c.cancelled = true
+			c.cancel()
+			runtime.GOMAXPROCS(prev)
+			rest(still, 0)
+			tr.Wins = append(tr.Wins, Window{Cmd: Cmd{C: "burst", Sub: []Cmd{{C: "cancel"}}}, Done: take(), Q: c.snapshot(), Busy: restless})
+			return tr
 		} else {
 			rest(300*time.Millisecond, 0)
 		}
